@@ -137,6 +137,13 @@ pub trait Lay: Fixed + Copy + std::panic::RefUnwindSafe + std::panic::UnwindSafe
     fn raw(self) -> u128;
     fn bits_from_raw(raw: u128) -> Self::Bits;
     fn raw_from_bits(bits: Self::Bits) -> u128;
+    /// The deprecated `wrapping_rem_int` / `overflowing_rem_int` are the only methods whose `Fixed` trait form is a
+    /// provided body rather than a forwarder, so generic code never reaches the inherent bodies; these call them.
+    fn inherent_wrapping_rem_int(self, rhs: Self::Bits) -> Self;
+    fn inherent_overflowing_rem_int(self, rhs: Self::Bits) -> (Self, bool);
+    /// [INT_NBITS, FRAC_NBITS, int_nbits(), frac_nbits(), min_value() bits, max_value() bits] through the inherent
+    /// items, then the same four functions through the `Fixed` trait
+    fn limits() -> [u128; 10];
 }
 
 macro_rules! impl_lay {
@@ -160,6 +167,30 @@ macro_rules! impl_lay {
             #[inline]
             fn raw_from_bits(bits: $B) -> u128 {
                 (bits as u128) & mask($w)
+            }
+            #[inline]
+            #[allow(deprecated)]
+            fn inherent_wrapping_rem_int(self, rhs: $B) -> Self {
+                <$T>::wrapping_rem_int(self, rhs)
+            }
+            #[inline]
+            #[allow(deprecated)]
+            fn inherent_overflowing_rem_int(self, rhs: $B) -> (Self, bool) {
+                <$T>::overflowing_rem_int(self, rhs)
+            }
+            fn limits() -> [u128; 10] {
+                [
+                    <$T>::INT_NBITS as u128,
+                    <$T>::FRAC_NBITS as u128,
+                    <$T>::int_nbits() as u128,
+                    <$T>::frac_nbits() as u128,
+                    (<$T>::min_value().to_bits() as u128) & mask($w),
+                    (<$T>::max_value().to_bits() as u128) & mask($w),
+                    <$T as Fixed>::int_nbits() as u128,
+                    <$T as Fixed>::frac_nbits() as u128,
+                    (<$T as Fixed>::min_value().to_bits() as u128) & mask($w),
+                    (<$T as Fixed>::max_value().to_bits() as u128) & mask($w),
+                ]
             }
         }
     };
